@@ -612,7 +612,10 @@ func (e *Engine) loadLeaf(h Heap, p PtrVal, suffix, leaf string, isRef bool) str
 	r := e.sc.define("ld", leaf, t)
 	if isRef && leaf == SRef && cur == c.init && suffix != ".tag" {
 		// objects of the pre-state are never objects allocated by this execution
-		e.sc.assume(app("bvult", r, bvLit(0x80000000, 32)))
+		if len(e.sc.binders) == 0 {
+			e.sc.assume(app("bvult", r, bvLit(0x80000000, 32)))
+		}
+		e.sc.stampRef(r, 0)
 	} else if isRef && leaf == SRef && suffix != ".tag" && !isBVLit(r) {
 		// memory safety of Go: a reference read from memory never denotes an object that has not
 		// been allocated yet (references are numbered in allocation order within each band)
@@ -624,7 +627,10 @@ func (e *Engine) loadLeaf(h Heap, p PtrVal, suffix, leaf string, isRef bool) str
 		} else {
 			a = app("bvult", r, bvLit(uint64(0x80000000)+uint64(e.nalloc)+1, 32))
 		}
-		e.sc.assume(a)
+		if len(e.sc.binders) == 0 {
+			e.sc.assume(a)
+		}
+		e.sc.stampRef(r, e.sc.seq)
 	}
 	return r
 }
@@ -845,12 +851,16 @@ func (e *Engine) alloc() string {
 		e.loopAllocN[e.allocBase]++
 		t := app("bvadd", e.allocBase, bvLit(uint64(e.loopAllocN[e.allocBase]), 32))
 		e.sc.fresh[t] = true
+		e.sc.seq++
+		e.sc.allocSeq[t] = e.sc.seq
 		e.allocReach[t] = e.guard
 		return t
 	}
 	e.nalloc++
 	t := bvLit(uint64(0x80000000)+uint64(e.nalloc), 32)
 	e.sc.fresh[t] = true
+	e.sc.seq++
+	e.sc.allocSeq[t] = e.sc.seq
 	e.allocReach[t] = e.guard
 	return t
 }
